@@ -720,3 +720,73 @@ example : Model.Mvp60.BranchOnly Proofs.Mvp60SlWitness.brApp = true ∧
   ⟨Proofs.Mvp60SlWitness.br_class.1, Proofs.Mvp60SlWitness.br_p1.trans Proofs.Mvp60SlWitness.br_seq.symm⟩
 
 end Props.C01
+
+/-! ## MVP-6.0 (package R60b, K ≥ 2 continuation): conditional branches, every number of units -/
+namespace Props.C01
+
+/-- **C01 for MVP-6.0 on register-only programs with conditional branches and `ret` (safety), EVERY number `K` of execute and
+write units** — `mvp60_branchonly_correct` without the hypothesis `K ≤ 1`.  With two or more units the instructions behind a
+taken branch can be executed in the tick of the flush (by the units after the flushing one): their results reach the write
+bus with a greater sequence id and are dropped by the drain (`Props.C03.mvp60_flush_drain_drops_younger_keeps_older`); they
+cannot fail (no `div`/`rem`, labels defined), none of them is a `ret` (a `ret` is alone in the execute-bus queue) and none
+is a second branch: with K ≥ 2 the execute-bus queue is drained in every tick, so the queue of a tick is what the control
+unit issued in ONE cycle, in which a branch can only be the first. -/
+theorem mvp60_branchonly_correct_all_units (app : App) (hw : WfApp app) (hbo : Model.Mvp60.BranchOnly app = true)
+    (ctx : Model.Context) (m : Spec.Machine) (hR : Rel ctx m) (hpw : ∀ r, GoMap.get1 ctx.PendingWriteRegisters r = 0)
+    (hseq : ctx.sequenceID = 0) (K fuel ticks : Nat) (hk : Halt)
+    (hh : (Model.Mvp60.run app ctx K K ticks).halt = some hk) (hnp : ∀ w, hk ≠ .panic w) :
+    Agree4 (Spec.run (specProg app) m fuel) hk (Model.Mvp60.run app ctx K K ticks).final.ctx := by
+  have h1 := mvp1_correct app hw ctx m hR fuel
+  unfold Agree at h1
+  unfold Agree4
+  obtain ⟨n, e1, e2⟩ := Proofs.Mvp60Sl.mvp60_g_refines_mvp1_wide app ⟨hw.small, hw.nofwd, Proofs.Mvp60Sl.proved_of_branchOnly app hbo⟩
+    ctx ⟨hR.rat, hR.tx, hpw⟩ K ticks hk (Or.inl hseq) hh hnp
+  cases hstop : (Spec.run (specProg app) m fuel).stop with
+  | notWf w => trivial
+  | ret =>
+    rw [hstop] at h1
+    simp only at h1 ⊢
+    obtain ⟨u1, u2⟩ := Proofs.Mvp4.run_halt_unique mvp1Fetch mvp1Fetch app ⟨ctx, 0#32⟩ n fuel hk .ret e1 h1.1
+    subst u1
+    obtain ⟨f1, f2⟩ := e2 (by intro hc; cases hc)
+    have hfin : (runMvp1 app ⟨ctx, 0#32⟩ n).final = (runMvp1 app ⟨ctx, 0#32⟩ fuel).final := u2
+    refine ⟨rfl, fun r => ?_, ?_⟩
+    · rw [f1, hfin]; exact h1.2.1.regs r
+    · rw [f2, hfin]; exact h1.2.1.mem
+  | offEnd =>
+    rw [hstop] at h1
+    simp only at h1 ⊢
+    obtain ⟨u1, u2⟩ := Proofs.Mvp4.run_halt_unique mvp1Fetch mvp1Fetch app ⟨ctx, 0#32⟩ n fuel hk .offEnd e1 h1.1
+    subst u1
+    obtain ⟨f1, f2⟩ := e2 (by intro hc; cases hc)
+    have hfin : (runMvp1 app ⟨ctx, 0#32⟩ n).final = (runMvp1 app ⟨ctx, 0#32⟩ fuel).final := u2
+    refine ⟨rfl, fun r => ?_, ?_⟩
+    · rw [f1, hfin]; exact h1.2.1.regs r
+    · rw [f2, hfin]; exact h1.2.1.mem
+  | error er =>
+    rw [hstop] at h1
+    simp only at h1 ⊢
+    exact (Proofs.Mvp4.run_halt_unique mvp1Fetch mvp1Fetch app ⟨ctx, 0#32⟩ n fuel hk .err e1 h1.1).1
+
+/-- Non-vacuity: the loop program `Proofs.Mvp60SlWitness.brApp` on two and four units, and the program
+`Proofs.Mvp60Flush.wpApp` (a member of the class) on two units, in which the `addi t0` behind the taken `beq` IS executed in
+the tick of the flush (`Props.C03`, example of the drain theorem): all end with the registers of MVP-1 -/
+example : Model.Mvp60.BranchOnly Proofs.Mvp60SlWitness.brApp = true ∧ Model.Mvp60.BranchOnly Proofs.Mvp60Flush.wpApp = true ∧
+    Proofs.Mvp60SlWitness.obsR (Model.Mvp60.run Proofs.Mvp60SlWitness.brApp Proofs.Mvp60SlWitness.ctx0 2 2 5000).halt
+        (Model.Mvp60.run Proofs.Mvp60SlWitness.brApp Proofs.Mvp60SlWitness.ctx0 2 2 5000).final.ctx =
+      Proofs.Mvp60SlWitness.obsR (runMvp1 Proofs.Mvp60SlWitness.brApp ⟨Proofs.Mvp60SlWitness.ctx0, 0⟩ 40).halt
+        (runMvp1 Proofs.Mvp60SlWitness.brApp ⟨Proofs.Mvp60SlWitness.ctx0, 0⟩ 40).final.ctx ∧
+    Proofs.Mvp60SlWitness.obsR (Model.Mvp60.run Proofs.Mvp60SlWitness.brApp Proofs.Mvp60SlWitness.ctx0 4 4 5000).halt
+        (Model.Mvp60.run Proofs.Mvp60SlWitness.brApp Proofs.Mvp60SlWitness.ctx0 4 4 5000).final.ctx =
+      Proofs.Mvp60SlWitness.obsR (runMvp1 Proofs.Mvp60SlWitness.brApp ⟨Proofs.Mvp60SlWitness.ctx0, 0⟩ 40).halt
+        (runMvp1 Proofs.Mvp60SlWitness.brApp ⟨Proofs.Mvp60SlWitness.ctx0, 0⟩ 40).final.ctx ∧
+    Proofs.Mvp60SlWitness.obsR (Model.Mvp60.run Proofs.Mvp60Flush.wpApp Proofs.Mvp60SlWitness.ctx0 2 2 2000).halt
+        (Model.Mvp60.run Proofs.Mvp60Flush.wpApp Proofs.Mvp60SlWitness.ctx0 2 2 2000).final.ctx =
+      Proofs.Mvp60SlWitness.obsR (runMvp1 Proofs.Mvp60Flush.wpApp ⟨Proofs.Mvp60SlWitness.ctx0, 0⟩ 20).halt
+        (runMvp1 Proofs.Mvp60Flush.wpApp ⟨Proofs.Mvp60SlWitness.ctx0, 0⟩ 20).final.ctx :=
+  ⟨Proofs.Mvp60SlWitness.br_class.1, Proofs.Mvp60SlWitness.wp_class,
+   Proofs.Mvp60SlWitness.br_p2.trans Proofs.Mvp60SlWitness.br_seq.symm,
+   Proofs.Mvp60SlWitness.br_p4.trans Proofs.Mvp60SlWitness.br_seq.symm,
+   Proofs.Mvp60SlWitness.wp_p2.trans Proofs.Mvp60SlWitness.wp_seq.symm⟩
+
+end Props.C01
